@@ -12,8 +12,8 @@ CHECK = {
     "rule": "zones = all subsets (size cap per tier) of 14 candidate owners without duplicate owner names, smallest first; inputs = all <=3-subsets of the genuine chain (+ full chain) x pollution variants x all query names x {A,NS,DS,CNAME,TXT} x {NXDOMAIN, NODATA, insecure delegation, wildcard-expanded answer, aggressive synthesis}; 'nontrivial' = distinct (zone, chain variant, record subset, pollution, qname, qtype, claim) cases in which the real verifier ACCEPTED (cache unit: distinct (history, instant, qname, qtype) lookups answered from the proof index); sanity counter complete_proofs_accepted = genuine full-chain proofs of model-true claims accepted by the real code (must be > 0 per verifier family, else harness error)",
     "assumptions": ["signatures are checked elsewhere: every record fed in is a genuine record of the modelled zone (or an explicitly labelled foreign one)",
                     "one delegation owner and one DNAME owner per zone, depth <= 3 below the apex"],
-    "bounds": {"quick": "zones of <=3 owners out of the first 13 candidates (all but the upper-case owner; 332 zones); 91 query names (depth<=2 full 6-label alphabet, depth 3 over {a,b,*}, depth 4 over {a,b}, apex, 5 out-of-zone); NSEC + 1 NSEC3 tuple (rotating per zone) x 3 opt-out modes; record subsets <=3 + full chain; pollution on subsets <=2. cache unit: zones of <=2 owners, bundles of <=2 records, histories of 1-2 bundles",
-               "thorough": "zones of <=4 owners out of 14 candidates (1107 zones); 105 query names (7-label alphabet incl. c at depth<=2); otherwise as quick, + EvaluateAggressiveNSECPrepared. cache unit: zones of <=3 owners"},
+    "bounds": {"quick": "zones of <=3 owners out of the first 13 candidates (all but the upper-case owner; 332 zones) plus the apex-DNAME candidate and the delegation at 'a' (owners after its subtree), each alone and next to every other quick candidate; 91 query names (depth<=2 full 6-label alphabet, depth 3 over {a,b,*}, depth 4 over {a,b}, apex, 5 out-of-zone); NSEC + 1 NSEC3 tuple (rotating per zone) x 3 opt-out modes; record subsets <=3 + full chain; pollution on subsets <=2. cache unit: zones of <=2 owners, bundles of <=2 records, histories of 1-2 bundles",
+               "thorough": "zones of <=4 owners out of 16 candidates (incl. an apex DNAME and a second delegation); 105 query names (7-label alphabet incl. c at depth<=2); otherwise as quick, + EvaluateAggressiveNSECPrepared. cache unit: zones of <=3 owners"},
     "units": {
         "verifiers": {"pkg": "middleware/resolver/dnssec", "run": "TestVerifC02Verifiers", "harness": _DN,
                       "budget_s": {"quick": 120, "thorough": 840},
